@@ -11,7 +11,8 @@ structure MState where
   heap : Heap
   root : Val
   handles : List (Nat × Nat × Nat) := []          -- handle id ↦ (group, depth along `.parent`)
-  groups : Array (List HCell) := #[]              -- one group per result a handle was taken from
+  groups : Array (MNode Val × List Nat) := #[]    -- one group per result a handle was taken from: the match and the numbers of its cells
+  cells : Array HCell := #[]                      -- the TraverserMatch objects (shared between a Match and the results of searches from it)
   nums : List (Nat × Nat) := []       -- heap id ↦ canonical number (first-visit order)
   views : List (Nat × Nat × String) := []          -- view id ↦ (heap id of the list, converter)
   iters : List (Nat × Nat × String × Nat × Bool) := []   -- iterator id ↦ (list heap id, conv, position, exhausted)
@@ -326,52 +327,74 @@ def runOp (st : MState) (op : Json) : E (MState × Json) := do
     match ms[k]?, exc with
     | none, some e => return finishErr st (errJ (.exc e))
     | m?, _ =>
-      match m?.bind (fun m => (groupHandle m.cells 0).map fun hd => (m.cells, hd)) with
-      | some (cs, hd) =>
-        return finish { st with groups := st.groups.push cs,
+      match m?.bind (fun m => (groupHandle m.cells 0).map fun hd => (m, hd)) with
+      | some (m, hd) =>
+        let (cells', ids) := allocCells st.cells m.cells
+        return finish { st with cells := cells', groups := st.groups.push (m, ids),
                                 handles := (hid, st.groups.size, 0) :: st.handles.filter (·.1 != hid) } "h" [.str hd.pathStr] none
       | none => return finish { st with handles := st.handles.filter (·.1 != hid) } "none" [] none
+  | [.str "h.nested", nid, hid, p, k] => do
+    -- a search from the Match behind a live handle (as its TraverserMatch objects cache it now)
+    let nid ← match nid.getNat? with | .ok n => pure n | .error e => .error e
+    let hid ← match hid.getNat? with | .ok n => pure n | .error e => .error e
+    let k ← match k.getNat? with | .ok n => pure n | .error e => .error e
+    match (st.handles.lookup hid).bind (fun gd => (st.groups[gd.1]?).bind fun gr =>
+        ((gr.1.withCells (chainCells st.cells gr.2)).ancestor gd.2).map fun sm => (sm, gr.2.drop (gd.2 + 1))) with
+    | none => return finish st "nohandle" [] none
+    | some (sm, sharedIds) =>
+      let (ms, exc) := drain (wcx st.heap) (stepsOfJson p st.heap).toArray (.nested sm) (k+1) freshIter
+      match ms[k]?, exc with
+      | none, some e => return finishErr st (errJ (.exc e))
+      | m?, _ =>
+        match m?.bind (fun m => (groupHandle m.cells 0).map fun hd => (m, hd)) with
+        | some (m, hd) =>
+          -- from the nested root upward the chain is the start match's own chain: those cells are shared
+          let own := m.cells.take (m.cells.length - sharedIds.length)
+          let (cells', ids) := allocCells st.cells own
+          return finish { st with cells := cells', groups := st.groups.push (m, ids ++ sharedIds),
+                                  handles := (nid, st.groups.size, 0) :: st.handles.filter (·.1 != nid) } "h" [.str hd.pathStr] none
+        | none => return finish { st with handles := st.handles.filter (·.1 != nid) } "none" [] none
   | [.str "h.parent", nid, hid] => do
     let nid ← match nid.getNat? with | .ok n => pure n | .error e => .error e
     let hid ← match hid.getNat? with | .ok n => pure n | .error e => .error e
     match st.handles.lookup hid with
     | none => return finish st "nohandle" [] none
     | some (g, d) =>
-      match groupHandle (st.groups[g]?.getD []) (d+1) with
+      match groupHandleH st.cells ((st.groups[g]?.map (·.2)).getD []) (d+1) with
       | some hd => return finish { st with handles := (nid, g, d+1) :: st.handles.filter (·.1 != nid) } "h" [.str hd.pathStr] none
       | none => return finish { st with handles := st.handles.filter (·.1 != nid) } "none" [] none
   | [.str "h.assign", hid, vs] => do
     let hid ← match hid.getNat? with | .ok n => pure n | .error e => .error e
-    match (st.handles.lookup hid).bind (fun gd => (groupHandle (st.groups[gd.1]?.getD []) gd.2).map fun hd => (gd, hd)) with
+    match (st.handles.lookup hid).bind (fun gd => (groupHandleH st.cells ((st.groups[gd.1]?.map (·.2)).getD []) gd.2).map fun hd => (gd, hd)) with
     | none => return finish st "nohandle" [] none
     | some ((g, d), hd) =>
       if intOnDict st.heap hd then return finish st "skip" [] none else
       let (h, v) ← decValSpec st vs
       match hd.assign h v with
-      | .ok (h', hd') => return finish { st with heap := h', groups := st.groups.modify g (groupStore · d hd') } "ok" [] none
+      | .ok (h', hd') => return finish { st with heap := h', cells := groupStoreH st.cells ((st.groups[g]?.map (·.2)).getD []) d hd' } "ok" [] none
       | .error e => return finishErr { st with heap := h } (hErrJ e)
   | [.str "h.del", hid] => do
     let hid ← match hid.getNat? with | .ok n => pure n | .error e => .error e
-    match (st.handles.lookup hid).bind (fun gd => (groupHandle (st.groups[gd.1]?.getD []) gd.2).map fun hd => (gd, hd)) with
+    match (st.handles.lookup hid).bind (fun gd => (groupHandleH st.cells ((st.groups[gd.1]?.map (·.2)).getD []) gd.2).map fun hd => (gd, hd)) with
     | none => return finish st "nohandle" [] none
     | some ((g, d), hd) =>
       if intOnDict st.heap hd then return finish st "skip" [] none else
       match hd.del st.heap with
-      | .ok (h', hd') => return finish { st with heap := h', groups := st.groups.modify g (groupStore · d hd') } "ok" [] none
+      | .ok (h', hd') => return finish { st with heap := h', cells := groupStoreH st.cells ((st.groups[g]?.map (·.2)).getD []) d hd' } "ok" [] none
       | .error e => return finishErr st (hErrJ e)
   | [.str "h.pop", hid, d] => do
     let hid ← match hid.getNat? with | .ok n => pure n | .error e => .error e
-    match (st.handles.lookup hid).bind (fun gd => (groupHandle (st.groups[gd.1]?.getD []) gd.2).map fun hd => (gd, hd)) with
+    match (st.handles.lookup hid).bind (fun gd => (groupHandleH st.cells ((st.groups[gd.1]?.map (·.2)).getD []) gd.2).map fun hd => (gd, hd)) with
     | none => return finish st "nohandle" [] none
     | some ((g, dp), hd) =>
       if intOnDict st.heap hd then return finish st "skip" [] none else
       let (h, dv) ← decDflt st d
       match hd.pop h dv with
-      | .ok (h', hd', v) => return finish { st with heap := h', groups := st.groups.modify g (groupStore · dp hd') } "ok" [] (some v)
+      | .ok (h', hd', v) => return finish { st with heap := h', cells := groupStoreH st.cells ((st.groups[g]?.map (·.2)).getD []) dp hd' } "ok" [] (some v)
       | .error e => return finishErr { st with heap := h } (hErrJ e)
   | [.str "h.data", hid] => do
     let hid ← match hid.getNat? with | .ok n => pure n | .error e => .error e
-    match (st.handles.lookup hid).bind (fun gd => groupHandle (st.groups[gd.1]?.getD []) gd.2) with
+    match (st.handles.lookup hid).bind (fun gd => groupHandleH st.cells ((st.groups[gd.1]?.map (·.2)).getD []) gd.2) with
     | none => return finish st "nohandle" [] none
     | some hd => return finish st "ok" [] (some hd.cache)
   | [.str "d.get", chain, .str getter, .str conv] => do
